@@ -53,7 +53,9 @@ fn run_line(line: &str) -> String {
         "TSFMT" => chan_time::tsfmt(args),
         "NOW" => chan_time::now(args),
         "TICK" => chan_time::tick(args),
+        "REALNOW" => chan_time::realnow(args),
         "SCHED" => chan_now::sched(args),
+        "SCHEDX" => chan_now::schedx(args),
         "VALIDATE" => chan_ops::validate(args),
         "OPS" => chan_ops::ops(args),
         "CLI" => chan_cli::cli(args),
@@ -82,6 +84,7 @@ fn run_line(line: &str) -> String {
         "CRCV" => chan_bundle::crcv(args),
         "RT" => chan_bundle::rt(args),
         "RTV" => chan_bundle::rtv(args),
+        "RTBIG" => chan_bundle::rtbig(args),
         "SPEC" => chan_bundle::spec(args),
         "DECRT" => chan_bundle::decrt(args),
         "CRC16" => chan_bundle::crc16(args),
